@@ -66,7 +66,15 @@ SeedD ==
 SeedE ==
   << In(1, 1), Node(<<1>>, 1, 1), Node(<<1>>, 1, 1), Sub(2, 2), Out(2, 6), Out(1, 7), Ty(6, "FLOAT") >>
 
+\* F: a value nothing defines (its producer n2 is in no graph), named "dg", used three times inside the body g2
+\*    (twice by n3, once by n4) - it must be written as a bare name and come back as ONE placeholder
+\*    g1(in a=v1): n1(v1)->o6 ; n5(o6)->o10 {g2} ; out o10        g2: n3(o7, o7, o6)->o8 ; n4(o7, o8)->o9 ; out o9
+SeedF ==
+  << In(1, 1), Node(<<1>>, 1, 1), Node(<<>>, 1, 0), Nm(7, "dg"),
+     Node(<<7, 7, 6>>, 1, 2), Node(<<7, 8>>, 1, 2), Out(2, 9), Node(<<6>>, 1, 1), Sub(5, 2), Out(1, 10) >>
+
 Seed(id) == CASE id = 1 -> SeedA [] id = 2 -> SeedB [] id = 3 -> SeedC [] id = 4 -> SeedD [] id = 5 -> SeedE
+              [] id = 6 -> SeedF
 
 Empty == EmptySCS(3, Names5, Consts5)
 
